@@ -450,7 +450,7 @@ impl Reload {
 
     /// Generator side: connect outcome of one address, measured on the real code (cached).
     /// One whole-loop scenario (op `evloop`): start the real sender on loopback with `ips`, then for every
-    /// step write the file and raise SIGHUP at this process, wait `gap` ms; finally wait (<= 20 s) for the
+    /// step write the file and raise SIGHUP at this process, wait `gap` ms; finally wait (<= 60 s) for the
     /// uplink set published in the telemetry snapshot to become the address set of the last file.
     fn run_evloop(&mut self, ips: &str, steps: &str, mon: &mut Mon) {
         use srtla_send::config::DynamicConfig;
@@ -550,7 +550,7 @@ impl Reload {
             // the first housekeeping tick publishes the first snapshot (and the SIGHUP stream exists by then)
             let t0 = Instant::now();
             while live(&stats) != init_set {
-                if t0.elapsed() > Duration::from_secs(20) || sender.is_finished() {
+                if t0.elapsed() > Duration::from_secs(60) || sender.is_finished() {
                     sender.abort();
                     let _ = sender.await;
                     return Err("sender did not come up");
@@ -572,7 +572,7 @@ impl Reload {
             let t1 = Instant::now();
             let mut ok_since: Option<Instant> = None;
             let mut seen = live(&stats);
-            while t1.elapsed() < Duration::from_secs(20) {
+            while t1.elapsed() < Duration::from_secs(60) {
                 seen = live(&stats);
                 if seen == want {
                     if ok_since.is_none() {
@@ -615,7 +615,7 @@ impl Reload {
                         "C19",
                         "evloop-applied-list",
                         format!(
-                            "real event loop: started with {init_set:?}; {} reload(s), every file applicable, the last one lists {want:?}; 20 s later the sender runs {seen:?}",
+                            "real event loop: started with {init_set:?}; {} reload(s), every file applicable, the last one lists {want:?}; 60 s later the sender runs {seen:?}",
                             plan.len()
                         ),
                     );
